@@ -32,6 +32,7 @@ type TierSpec struct {
 	BranchMs    int    `json:"branch_timeout_ms"`
 	CrossCheck  bool   `json:"cross_check"`
 	Parallel    int    `json:"parallel"`
+	Lazy        bool   `json:"lazy"`
 }
 
 type GroupSpec struct {
@@ -201,7 +202,7 @@ func RunCheck(propFile, tier string, only string, verbose bool) int {
 			go func() {
 				defer wg.Done()
 				defer func() { <-sem }()
-				res[i] = RunHarness(l, fn, HarnessConfig{Unwind: ts.Unwind, BranchTimeoutMs: ts.BranchMs, InitPkgs: g.Init, Merge: true, Tier: tier})
+				res[i] = RunHarness(l, fn, HarnessConfig{Unwind: ts.Unwind, BranchTimeoutMs: ts.BranchMs, InitPkgs: g.Init, Merge: true, Tier: tier, Lazy: ts.Lazy})
 				if verbose {
 					r := res[i]
 					fmt.Printf("explored %s: paths=%d obligations=%d errors=%d (%.1fs, %d branch queries %.1fs)\n", r.Name, r.Paths, len(r.Obligations), len(r.Errors), r.Secs, r.BranchQueries, r.BranchSecs)
